@@ -145,6 +145,7 @@ def run(ctx):
                             k[1], e.kind, norm(e.site)[:60]), "@" + norm(d) + " " + f.name, path=C.chain_text(ch, e.fn))
                     else:
                         ctx.holds("C09.3", f, "%s on a function with no file-system / clock / environment dependence: unobservable" % k[1], "@" + norm(d) + " " + f.name)
+                    cached_defaults(ctx, f, k[1], d)
                 elif k[0] == "class":
                     # class-based decorator: an instance lives at module level for the whole process
                     n_slots += 1
@@ -249,6 +250,68 @@ def run(ctx):
                 ctx.holds("C09.2", f, "logging configuration persists but only routes log output", n, nontrivial=False)
     ctx.floor("process-lifetime state slots inventoried", 5, n_slots)
     ctx.info["slots"] = n_slots
+
+
+MUTATORS = ("append", "extend", "insert", "remove", "sort", "reverse", "clear", "pop", "update", "add", "setdefault", "discard", "popitem")
+
+
+def cached_defaults(ctx, f, deco, site):
+    """A memoised function keeps what it returns - and every container literal it placed inside it - for the rest of the
+    process.  For an argument parser these are the `default=[...]` objects: argparse hands the very same object to every
+    parse that does not give the option.  They carry state as soon as any code modifies such a value in place."""
+    from .argtable import Row
+    rows = []
+    for n in own_nodes(f.node):
+        if isinstance(n, ast.Call) and isinstance(n.func, ast.Attribute) and n.func.attr in ("add_argument", "set_defaults"):
+            for kw in n.keywords:
+                if n.func.attr == "add_argument" and kw.arg == "default" and is_container_expr(ctx, kw.value, f.module):
+                    rows.append((Row(n).dest, n))
+                elif n.func.attr == "set_defaults" and kw.arg and is_container_expr(ctx, kw.value, f.module):
+                    rows.append((kw.arg, n))
+    if not rows:
+        return
+    dests = {d for d, _ in rows if d}
+    hits = []
+    for g in ctx.prog.functions.values():
+        alias = {}       # local name -> dest it was read from
+        for n in own_nodes(g.node):
+            if isinstance(n, ast.Assign) and len(n.targets) == 1 and isinstance(n.targets[0], ast.Name):
+                d = _dest_read(n.value, dests)
+                if d:
+                    alias[n.targets[0].id] = d
+        for n in own_nodes(g.node):
+            recv = None
+            if isinstance(n, ast.Call) and isinstance(n.func, ast.Attribute) and n.func.attr in MUTATORS:
+                recv = n.func.value
+            elif isinstance(n, ast.AugAssign):
+                recv = n.target
+            elif isinstance(n, (ast.Assign, ast.Delete)):
+                for t in n.targets:
+                    if isinstance(t, ast.Subscript) and (_dest_read(t.value, dests) or (isinstance(t.value, ast.Name) and t.value.id in alias)):
+                        recv = t.value
+            if recv is None:
+                continue
+            d = _dest_read(recv, dests) or (alias.get(recv.id) if isinstance(recv, ast.Name) else None)
+            if d and not (isinstance(n, ast.Call) and n.func.attr == "setdefault" and _dest_read(n, dests)):
+                hits.append((g, n, d))
+    label = "@%s %s :: default containers" % (norm(site), f.name)
+    if hits:
+        g, n, d = hits[0]
+        ctx.violated("C09.2", g, "%s keeps the parser - and the default container of option %r - for the whole process, and `%s` modifies the value of %r in place: "
+                     "when the option is not given this is the shared default, so the next operation starts from what this one left in it" % (deco, d, norm(n)[:70], d), label)
+    else:
+        ctx.holds("C09.2", f, "%s keeps %d default container(s) alive, none of the option values (%s) is ever modified in place" % (deco, len(rows), ", ".join(sorted(dests))), label)
+
+
+def _dest_read(e, dests):
+    """e reads an option value by name:  ns.dest / kw['dest'] / kw.get('dest'[, x]) / kw.setdefault('dest', x)  -> dest."""
+    if isinstance(e, ast.Attribute) and e.attr in dests:
+        return e.attr
+    if isinstance(e, ast.Subscript) and const_str(e.slice) in dests:
+        return const_str(e.slice)
+    if isinstance(e, ast.Call) and isinstance(e.func, ast.Attribute) and e.func.attr in ("get", "setdefault", "pop") and e.args and const_str(e.args[0]) in dests:
+        return const_str(e.args[0])
+    return None
 
 
 def decorator_instance(ctx, f, cls, site):
